@@ -3,6 +3,7 @@ package otto
 import (
 	"fmt"
 	"regexp"
+	"strings"
 
 	"github.com/robertkrimen/otto/parser"
 )
@@ -77,8 +78,48 @@ func (rt *runtime) newRegExpObject(pattern string, flags string) *object {
 	o.defineProperty("ignoreCase", boolValue(ignoreCase), 0, false)
 	o.defineProperty("multiline", boolValue(multiline), 0, false)
 	o.defineProperty("lastIndex", intValue(0), 0o100, false)
-	o.defineProperty("source", stringValue(pattern), 0, false)
+	o.defineProperty("source", stringValue(regExpSource(pattern)), 0, false)
 	return o
+}
+
+// regExpSource returns pattern in a form that reads back as the body of a
+// regular expression literal with the same behaviour (15.10.4.1).
+func regExpSource(pattern string) string {
+	if pattern == "" {
+		return "(?:)"
+	}
+	if !strings.ContainsAny(pattern, "/\n\r\u2028\u2029") {
+		return pattern
+	}
+	var source strings.Builder
+	inClass := false
+	for i := 0; i < len(pattern); i++ {
+		chr := pattern[i]
+		switch chr {
+		case '\\':
+			if i+1 < len(pattern) && pattern[i+1] != '\n' && pattern[i+1] != '\r' {
+				source.WriteByte(chr)
+				i++
+				chr = pattern[i]
+			}
+		case '[':
+			inClass = true
+		case ']':
+			inClass = false
+		case '/':
+			if !inClass {
+				source.WriteByte('\\')
+			}
+		case '\n':
+			source.WriteString("\\n")
+			continue
+		case '\r':
+			source.WriteString("\\r")
+			continue
+		}
+		source.WriteByte(chr)
+	}
+	return strings.NewReplacer("\u2028", "\\u2028", "\u2029", "\\u2029").Replace(source.String())
 }
 
 func (o *object) regExpValue() regExpObject {
